@@ -8,6 +8,24 @@ PROPS = [json.loads(l)["id"] for l in (VERIF / "properties.jsonl").read_text().s
 
 # property -> (technique, level text, level note, design ref)
 CLAIMED = {
+    "C01": (
+        "abstract interpretation (table object model: provenance/repeatedness typestate with context-sensitive inlining); unit type system over index kinds; guard extraction; affine-form evaluation of the run-splitting arithmetic",
+        "Partial, structural. Decides for every Table/Row method, with all in-class callees inlined, that a row fetched from the table is "
+        "un-repeated before its cells are edited and that edited copies are pushed back (the 'one row only' clause); that positions, counts, item "
+        "indices and raw child indices are never confused in the vault functions; that insert_column/delete_column use the one guard that shifts "
+        "every row alike; that a run with one repetition left is kept; and, by affine evaluation over (position, repeat, run start, run length), "
+        "that the parts a run is split into in set/insert/delete add up to the run. The overlap loop, bisect and bulk stepping are not decided.",
+        "Trusted: lxml child indexing; XPath [$idx] item selection; maps consistent with the XML at entry (C02).",
+        "DESIGN.md §4 C01"),
+    "C02": (
+        "abstract interpretation (table object model: map/index state machine per owner, interprocedural by inlining); CFG must-pass-through on the vault functions; scheme/attribute/key table comparisons",
+        "Partial, structural. Decides the property's own clause 'no read may be served from position maps or cached row/cell objects that an "
+        "earlier operation has made obsolete' in its structural form: on every normal exit of every public Table/Row method all maps are restored "
+        "and no wrapper index is stale, no map is read while obsolete, the vault functions reset index and map on every path after a mutation, the "
+        "rebuilds read the scheme and attribute the getters and _set_repeated use, and clear() resets everything. Equality of an incrementally "
+        "patched map with a rebuilt one is arithmetic and not decided.",
+        "Trusted: vault axioms are justified by R02c in the same run; public repeated setters are treated as plain mutations inside the package.",
+        "DESIGN.md §4 C02"),
     "C03": (
         "CFG path queries (dominators, must-pass-through, pairing) over the save chain; cache-drop obligation in Document.set_part",
         "Partial, structural. Decides on every path of the current source that unread parts are fetched before any writer runs, that every "
